@@ -10,6 +10,7 @@ A term that differs is reported with both normal forms.
 """
 import ast
 import copy
+import os
 from .core import copy_ast
 
 from .core import AnalysisError, FuncInfo, Module, canon, dotted, names_loaded, src, walk_shallow, target_names
@@ -745,6 +746,9 @@ def local_signatures(fi, params, surviving=None, keep=(), helper=None):
             if helper is not None:
                 v = helper.expand(v)
             v = _comp_rename(v)
+            if d.kind == 'for' and isinstance(v, ast.Call) and isinstance(v.func, ast.Name) and v.func.id == 'list' and len(v.args) == 1 and not v.keywords \
+                    and isinstance(v.args[0], ast.Call):
+                v = v.args[0]                  # walking list(<call>) is walking the fresh result of the call
             rn = {}
             for n in ast.walk(v):
                 if isinstance(n, ast.Name) and n.id in first and n.id not in params:
@@ -1143,7 +1147,9 @@ def canonical_func(fi):
         changed = True
         while changed:
             changed = False
-            if len(body) < 3 or not (isinstance(body[-1], ast.Return) and isinstance(body[-1].value, (ast.Name, ast.Constant))):
+            plain = lambda v_: isinstance(v_, (ast.Name, ast.Constant)) or (
+                isinstance(v_, ast.Tuple) and all(isinstance(x_, (ast.Name, ast.Constant)) for x_ in v_.elts))
+            if len(body) < 3 or not (isinstance(body[-1], ast.Return) and plain(body[-1].value)):
                 return
             final = ast.dump(body[-1].value)
             for i in range(len(body) - 2, -1, -1):
@@ -1153,10 +1159,9 @@ def canonical_func(fi):
                     rest = body[i + 1:-1]
                     if not rest:
                         break
-                    if isinstance(body[-1].value, ast.Name):
-                        v = body[-1].value.id
-                        if any(isinstance(x, ast.Name) and x.id == v and isinstance(x.ctx, (ast.Store, ast.Del)) for r_ in rest for x in ast.walk(r_)):
-                            break
+                    vs = {x.id for x in ast.walk(body[-1].value) if isinstance(x, ast.Name)}
+                    if any(isinstance(x, ast.Name) and x.id in vs and isinstance(x.ctx, (ast.Store, ast.Del)) for r_ in rest for x in ast.walk(r_)):
+                        break
                     if any(isinstance(x, ast.Return) for r_ in rest for x in ast.walk(r_)):
                         break
                     arm = st.body[:-1]
@@ -1947,6 +1952,9 @@ def effects(fi, keep=(), use_semiring=True, helper=None):
 
     def norm_ctx(c):
         kind = c[0]
+        if kind == 'for' and len(c) == 3 and isinstance(c[2], tuple) and len(c[2]) == 4 and c[2][0] == 'call' and c[2][1] == ('fn', 'list') \
+                and len(c[2][2]) == 1 and not c[2][3] and isinstance(c[2][2][0], tuple) and c[2][2][0][:1] == ('call',):
+            return (kind, c[1], c[2][2][0])          # walking list(<call>) is walking the fresh result of the call
         if kind in ('if', 'ifnot') and len(c) == 2 and isinstance(c[1], tuple):
             t = c[1]
             while t and t[0] == 'unary' and t[1] == 'Not':
@@ -2147,6 +2155,11 @@ def compare(fi, tmpl, keep=()):
             rest2.remove(e.key)
         else:
             missing.append(e)
+    if (extra or missing) and os.environ.get('PVS_DEBUG_KEYS'):
+        for e in missing:
+            print('PVS_DEBUG_KEYS missing', e.key)
+        for e in extra:
+            print('PVS_DEBUG_KEYS extra  ', e.key)
     if not extra and not missing:
         # order: for every surviving local, the effects that mention it come in the same order
         def syms(k, out):
